@@ -140,25 +140,37 @@ func solve(text string, timeout time.Duration, thorough bool) solveResult {
 			ms       int
 		}
 		ch := make(chan one, len(sps))
+		ctx, cancel := context.WithCancel(context.Background())
 		for _, sp := range sps {
 			go func(sp solverSpec) {
-				r, m, ms := runSolver(context.Background(), sp, text, timeout)
+				r, m, ms := runSolver(ctx, sp, text, timeout)
 				ch <- one{sp, r, m, ms}
 			}(sp)
 		}
-		for range sps {
-			o := <-ch
-			res.all[o.sp.name] = o.r
-			if o.r == "sat" || o.r == "unsat" {
-				if res.result == "sat" || res.result == "unsat" {
-					if res.result != o.r {
-						res.result = "disagree"
+		// once one solver has a definitive answer the others get a grace period to (dis)agree
+		var grace <-chan time.Time
+		pending := len(sps)
+	collect:
+		for pending > 0 {
+			select {
+			case o := <-ch:
+				pending--
+				res.all[o.sp.name] = o.r
+				if o.r == "sat" || o.r == "unsat" {
+					if res.result == "sat" || res.result == "unsat" {
+						if res.result != o.r {
+							res.result = "disagree"
+						}
+					} else {
+						res.result, res.solver, res.ms, res.model = o.r, o.sp.name, o.ms, o.model
+						grace = time.After(3 * time.Second)
 					}
-				} else {
-					res.result, res.solver, res.ms, res.model = o.r, o.sp.name, o.ms, o.model
 				}
+			case <-grace:
+				break collect
 			}
 		}
+		cancel()
 	}
 	solveCacheMu.Lock()
 	solveCache[key] = res
